@@ -372,10 +372,19 @@ impl Group {
             ));
         }
 
-        let target = if let Some(sig_rr) = self.sig_set.first() {
-            sig_rr.data().signer_name()
-        } else {
-            self.rr_set[0].owner()
+        // The signer name comes from the (untrusted) RRSIG record. It can
+        // only be the name of the zone that contains the RRset if the owner
+        // name ends with it. If it does not, the signature is useless and
+        // the status of the RRset has to follow from the owner name, just
+        // like for an RRset without signatures. Otherwise an RRSIG with
+        // the name of some insecure zone as signer name would make any
+        // RRset insecure.
+        let owner = self.rr_set[0].owner();
+        let target = match self.sig_set.first() {
+            Some(sig_rr) if owner.ends_with(sig_rr.data().signer_name()) => {
+                sig_rr.data().signer_name()
+            }
+            _ => owner,
         };
         let node = vc.get_node(target).await?;
         let state = node.validation_state();
